@@ -111,7 +111,7 @@ fn all_strings(alphabet: &[&str], maxlen: usize, f: &mut dyn FnMut(&str)) {
 }
 
 pub fn main(ctx: &Ctx) -> i32 {
-    ctx.set_rule("exhaustive: all interface names over {a,B,1,-,.} up to length 7; all field names / enum elements over {a,B,1,_} up to length 6 and member / type names over {A,b,1,_} up to length 5, in four positions each; all type expressions of up to 5 (quick) / 6 (thorough) tokens over {?, [], [string], int, T, (a:int), (a,b), ()}; all 9 ordered member-kind pairs x {same, different name} x 3 positions; a collision with any of 3-4 members of one kind declared in every order x 9 kind pairs x 3 positions; generated: grammar-directed valid definitions rendered with 3 trivia levels, and single-token delete/insert/swap/substitute/duplicate mutants of them; each text is bracketed by a strict and a liberal hand-written recogniser; distinct = (text, class); non-trivial = accepted text, duplicate text, or a rejected text one edit away from an accepted one");
+    ctx.set_rule("exhaustive: all interface names over {a,B,1,-,.} up to length 7; all field names / enum elements over {a,B,1,_} up to length 6 and member / type names over {A,b,1,_} up to length 5, in four positions each; all type expressions of up to 5 (quick) / 6 (thorough) tokens over {?, [], [string], int, T, (a:int), (a,b), ()}; all 9 ordered member-kind pairs x {same, different name} x 3 positions; a collision with any of 3-4 members of one kind declared in every order x 9 kind pairs x 3 positions; two duplicated names at once where one is spelled inside the other, inside the interface name or inside the diagnostic's wording x all kind combinations; generated: grammar-directed valid definitions rendered with 3 trivia levels, and single-token delete/insert/swap/substitute/duplicate mutants of them; each text is bracketed by a strict and a liberal hand-written recogniser; distinct = (text, class); non-trivial = accepted text, duplicate text, or a rejected text one edit away from an accepted one");
     ctx.assume("the grammar is reproduced from the published varlink rules from memory; interface names follow [A-Za-z]([-]*[A-Za-z0-9])*(\\.[A-Za-z0-9]([-]*[A-Za-z0-9])*)+");
     ctx.assume("pinned (regression only): the whitespace code points and the positions where the implementation's layout allows trivia; texts that only a liberal trivia policy accepts (several members on one line, blank before a comma, blanks before a trailing comment, unterminated final comment, zero members) are skipped_unspecified");
     // 1. interface names, exhaustive
@@ -239,6 +239,34 @@ pub fn main(ctx: &Ctx) -> i32 {
                                 members.insert(pos, mk(k2, perm[collide]));
                                 let text = format!("interface a.b\n{}\n", members.join("\n"));
                                 judge(ctx, &text, "duplicate-among-several", true);
+                            }
+                        }
+                    }
+                }
+            }
+        }
+    }
+    // 3c. several duplicated names at once, one spelled inside another or inside the wording
+    // of a diagnostic (each must be named, however the messages are collected)
+    {
+        let mk = |k: MKind, name: &str| match k {
+            MKind::Type => format!("type {} (a: int)", name),
+            MKind::Method => format!("method {}() -> ()", name),
+            MKind::Error => format!("error {} (a: int)", name),
+        };
+        let pairs = [("GetInfo", "Get"), ("Get", "GetInfo"), ("NotFound", "Found"), ("Ping", "I"), ("Ping", "In"), ("Ping", "Interface"), ("Interface", "I"), ("Aa", "A"), ("A", "Aa"), ("Multiple", "M"), ("Ping", "B")];
+        let kinds = [MKind::Type, MKind::Method, MKind::Error];
+        for (a, b) in pairs {
+            for ka1 in kinds {
+                for ka2 in kinds {
+                    for kb1 in kinds {
+                        for kb2 in kinds {
+                            for order in 0..2 {
+                                let members = if order == 0 { vec![mk(ka1, a), mk(ka2, a), mk(kb1, b), mk(kb2, b)] } else { vec![mk(ka1, a), mk(kb1, b), mk(ka2, a), mk(kb2, b)] };
+                                for iface in ["a.b", "org.Ping.B"] {
+                                    let text = format!("interface {}\n{}\n", iface, members.join("\n"));
+                                    judge(ctx, &text, "duplicates-with-nested-spellings", true);
+                                }
                             }
                         }
                     }
